@@ -3,7 +3,7 @@
 //! not generic.
 
 use crate::case::{Config, Kind, ModelId, Orient, Rect, Transport};
-use crate::world::{SimAbort, SimClock, SimErr, SimPin, SimSpi, WorldRef, PIN_DC, PIN_RST, PIN_WR};
+use crate::world::{SimAbort, SimClock, SimErr, SimPin, SimSpi, WorldRef, ZstPin, PIN_DC, PIN_RST, PIN_WR};
 use core::convert::Infallible;
 use core::marker::PhantomData;
 use embedded_graphics_core::draw_target::DrawTarget;
@@ -583,7 +583,13 @@ where
     M::ColorFormat: InterfacePixelFormat<DI::Word> + SimColor,
 {
     let b = Builder::new(model, di);
-    if cfg.rst {
+    if cfg.rst && cfg.zst_rst {
+        if cfg.builder_order & 0x8000 != 0 {
+            finish(apply_setters(b.reset_pin(ZstPin::<PIN_RST>), cfg).init(clk))
+        } else {
+            finish(apply_setters(b, cfg).reset_pin(ZstPin::<PIN_RST>).init(clk))
+        }
+    } else if cfg.rst {
         if cfg.builder_order & 0x8000 != 0 {
             finish(apply_setters(b.reset_pin(SimPin::new(w, PIN_RST)), cfg).init(clk))
         } else {
@@ -607,7 +613,8 @@ where
             init_with(cfg, model, di, w, clk)
         }
         Transport::Par8 => {
-            let bus = Generic8BitBus::new((
+            let mk = if cfg.bus_from { Generic8BitBus::from } else { Generic8BitBus::new };
+            let bus = mk((
                 SimPin::new(w, 0),
                 SimPin::new(w, 1),
                 SimPin::new(w, 2),
@@ -634,7 +641,8 @@ where
     match cfg.transport {
         Transport::Trace(Kind::P16) if cfg.by_ref => init_with(cfg, model, &mut br.p16, w, clk),
         Transport::Par16 => {
-            let bus = Generic16BitBus::new((
+            let mk = if cfg.bus_from { Generic16BitBus::from } else { Generic16BitBus::new };
+            let bus = mk((
                 SimPin::new(w, 0),
                 SimPin::new(w, 1),
                 SimPin::new(w, 2),
